@@ -333,7 +333,7 @@ func (c *Task) finish() {
 	if r != nil {
 		c.panicked = true
 		c.PanicVal = r
-		buf := make([]byte, 8192)
+		buf := make([]byte, 16384)
 		n := runtime.Stack(buf, false)
 		c.PanicStack = string(buf[:n])
 	}
